@@ -1,50 +1,41 @@
-(** C08 -- parameter expansion creates exactly the right instances and edges.
-
-    Model: [stage ap san pi sp] (Expand.v) = Study.__init__/add_step + Study._stage
-    + ExecutionGraph.add_step/add_connection; [ap] = Combination.apply, [san] =
-    make_safe_path's component rule, [pi] = the iteration order of every Python
-    set.  [um] = the used-parameter table of phase 1, [st_g st] = the
-    ExecutionGraph.  [iname ps um s i] = name of the instance of step [s] for
-    row [i]; [kids_of g p] = adjacency_table[p]; [deps_of g x] = _dependencies[x];
-    [rec_of g x] = values[x].  Hygiene H8 = [hygiene sp um] (decided by [hygb]):
-    dependencies name steps; instance naming is injective on (step, class of
-    rows agreeing on the used parameters) and never yields a step's name
-    (fails for K2 / K2b, see the [_refuted] theorems).
-    The monitor the harness evaluates on the IMPLEMENTATION's graph is [C08_ok]
-    ([c08_monitor]); [C08_monitor_holds] proves it of every staging of the model. *)
+(** The statements of Props/C08.v with their (glue) proofs from the lemmas of
+    ExpandC08.v / ExpandSound.v; Props/C08.v restates them and closes each by [exact]. *)
 From MWF Require Import Base.Str Base.Util Expand.PyStr Expand.Expand Expand.ExpandProofs
-     Expand.ExpandInv Expand.ExpandC08 Expand.ExpandSound Expand.ExpandWitness Expand.ExpandFinal.
+     Expand.ExpandInv Expand.ExpandC08 Expand.ExpandSound Expand.ExpandWitness.
 From Coq Require Import List NArith Bool Arith.
 Import ListNotations.
 
 (** the used-parameter table is the closure the property speaks of: a key is
     used by a step iff the step mentions it, or an ordinary parent uses it, or
     a step whose workspace it references (not as a funnel) uses it *)
-Theorem C08_used_closure : forall ap san pi sp um st t k,
+Lemma final_C08_used_closure : forall ap san pi sp um st t k,
   perm_oracle pi -> hygiene sp um -> stage ap san pi sp = Ok (um, st) -> In t (sp_steps sp) ->
   (In k (used_in um (s_name t)) <->
    In k (keys_of (sp_params sp)) /\
    (existsb (uses_key k) (step_texts t) = true
     \/ (exists d, In d (deps_ord t) /\ In k (used_in um d))
     \/ (exists w, In w (step_wsrefs t) /\ ~ In w (deps_hub t) /\ In k (used_in um w)))).
-Proof. exact final_C08_used_closure. Qed.
-Print Assumptions C08_used_closure.
+Proof.
+  intros ap san pi sp um st t k Hpi Hh Hs Ht.
+  exact (used_closure ap san sp um (st_g st) t k Hh (stage_SF ap san pi sp um st Hpi Hh Hs) Ht).
+Qed.
 
 (** instances are shared exactly between rows that agree (value and label) on
     all parameters the step uses *)
-Theorem C08_sharing : forall ap san pi sp um st t i j,
+Lemma final_C08_sharing : forall ap san pi sp um st t i j,
   perm_oracle pi -> hygiene sp um -> stage ap san pi sp = Ok (um, st) ->
   In t (sp_steps sp) -> valid_row sp um (s_name t) i -> valid_row sp um (s_name t) j ->
   (iname (sp_params sp) um (s_name t) i = iname (sp_params sp) um (s_name t) j
    <-> agree (sp_params sp) (used_in um (s_name t)) i j = true).
-Proof. exact final_C08_sharing. Qed.
-Print Assumptions C08_sharing.
+Proof.
+  intros ap san pi sp um st t i j _ Hh _. exact (sharing sp um Hh t i j).
+Qed.
 
 (** an instance depends on the same-row instance of each ordinary dependency,
     on all instances of each funnel dependency, on "_source" iff it has
     neither -- and on nothing else (set equality, for the adjacency table and
     for [_dependencies]) *)
-Theorem C08_edges : forall ap san pi sp um st t i p,
+Lemma final_C08_edges : forall ap san pi sp um st t i p,
   perm_oracle pi -> hygiene sp um -> stage ap san pi sp = Ok (um, st) ->
   In t (sp_steps sp) -> valid_row sp um (s_name t) i ->
   let x := iname (sp_params sp) um (s_name t) i in
@@ -54,25 +45,32 @@ Theorem C08_edges : forall ap san pi sp um st t i p,
     \/ (exists h j, In h (deps_hub t) /\ In j (rows_of (sp_params sp) um h)
                     /\ p = iname (sp_params sp) um h j) in
   (In x (kids_of (st_g st) p) <-> expected) /\ (In p (deps_of (st_g st) x) <-> expected).
-Proof. exact final_C08_edges. Qed.
-Print Assumptions C08_edges.
+Proof.
+  intros ap san pi sp um st t i p Hpi Hh Hs Ht Hv x expected.
+  pose proof (edges ap san sp um (st_g st) Hh (stage_SF ap san pi sp um st Hpi Hh Hs) t i Ht Hv p) as [E1 E2].
+  unfold expected. rewrite <- (expected_In sp um t i p). split; assumption.
+Qed.
 
 (** a step that uses no parameter is instantiated exactly once, under its own name *)
-Theorem C08_unparam : forall ap san pi sp um st t,
+Lemma final_C08_unparam : forall ap san pi sp um st t,
   perm_oracle pi -> hygiene sp um -> stage ap san pi sp = Ok (um, st) ->
   In t (sp_steps sp) -> used_in um (s_name t) = [] ->
   all_instances sp um (s_name t) = [s_name t]
   /\ In (s_name t) (g_names (st_g st))
   /\ (forall i, iname (sp_params sp) um (s_name t) i = s_name t)
   /\ NoDup (g_names (st_g st)).
-Proof. exact final_C08_unparam. Qed.
-Print Assumptions C08_unparam.
+Proof.
+  intros ap san pi sp um st t Hpi Hh Hs Ht Hu.
+  pose proof (stage_SF ap san pi sp um st Hpi Hh Hs) as Hsf.
+  destruct (unparam ap san sp um (st_g st) Hsf t Ht Hu) as (A & B & C).
+  repeat split; auto. apply (total_names ap san sp um (st_g st) Hsf).
+Qed.
 
 (** for every step and every row there is exactly one node named after the
     instance (names are duplicate-free and there is no other node but
     "_source"); it carries that row's values of the used parameters and is the
     record [add_instance] builds for a row [j] that agrees with [i] *)
-Theorem C08_total : forall ap san pi sp um st,
+Lemma final_C08_total : forall ap san pi sp um st,
   perm_oracle pi -> hygiene sp um -> stage ap san pi sp = Ok (um, st) ->
   NoDup (g_names (st_g st))
   /\ (forall y, In y (g_names (st_g st)) ->
@@ -85,76 +83,95 @@ Theorem C08_total : forall ap san pi sp um st,
              /\ rec_of (st_g st) (iname (sp_params sp) um (s_name t) i) = Some r
              /\ rec_from ap san sp um t j r
              /\ r_params r = param_values (sp_params sp) (used_in um (s_name t)) i).
-Proof. exact final_C08_total. Qed.
-Print Assumptions C08_total.
+Proof.
+  intros ap san pi sp um st Hpi Hh Hs.
+  pose proof (stage_SF ap san pi sp um st Hpi Hh Hs) as Hsf.
+  destruct (total_names ap san sp um (st_g st) Hsf) as (A & B & C).
+  split; auto. split; auto. intros t i Ht Hv. split; auto.
+  destruct (records ap san sp um (st_g st) Hh Hsf t i Ht Hv) as (j & r & R1 & R2 & R3 & R4 & _ & R6).
+  exists j, r. auto.
+Qed.
 
 (** rows that agree on the parameters a step uses expand every field of the
     step to the same text (so sharing the instance loses nothing), provided
     the keys are distinct words and the substituted text contains no
     parameter token (the hypothesis of C09's core law; it excludes values
     that contain token text, K4b) *)
-Theorem C08_sound_sharing : forall ap san pi sp um st t i j x,
+Lemma final_C08_sound_sharing : forall ap san pi sp um st t i j x,
   perm_oracle pi -> hygiene sp um -> stage ap san pi sp = Ok (um, st) ->
   params_ok (sp_params sp) = true ->
   In t (sp_steps sp) -> In x (step_texts t) ->
   agree (sp_params sp) (used_in um (s_name t)) i j = true ->
   no_token_left (sp_params sp) i x = true ->
   apply_row (sp_params sp) i x = apply_row (sp_params sp) j x.
-Proof. exact final_C08_sound_sharing. Qed.
-Print Assumptions C08_sound_sharing.
+Proof.
+  intros ap san pi sp um st t i j x Hpi Hh Hs.
+  exact (sound_sharing_fields ap san sp um (st_g st) t i j x Hh (stage_SF ap san pi sp um st Hpi Hh Hs)).
+Qed.
 
 (** every child was inserted after its parent (well-formedness of the
     execution DAG: [parents x < x] in insertion order) *)
-Theorem C08_topological : forall ap san pi sp um st p c,
+Lemma final_C08_topological : forall ap san pi sp um st p c,
   perm_oracle pi -> hygiene sp um -> stage ap san pi sp = Ok (um, st) ->
   In c (kids_of (st_g st) p) ->
   (index_of p (g_names (st_g st)) < index_of c (g_names (st_g st)))%nat
   /\ In p (g_names (st_g st)) /\ In c (g_names (st_g st)).
-Proof. exact final_C08_topological. Qed.
-Print Assumptions C08_topological.
+Proof.
+  intros ap san pi sp um st p c Hpi Hh Hs.
+  exact (topological ap san sp um (st_g st) (stage_SF ap san pi sp um st Hpi Hh Hs) p c).
+Qed.
 
 (** the restart limit attached to an instance is the configured limit if the
     step has a restart command, else 0 (cited by C06) *)
-Theorem C06_rlimit_attach : forall ap san pi sp um st t i,
+Lemma final_C06_rlimit_attach : forall ap san pi sp um st t i,
   perm_oracle pi -> hygiene sp um -> stage ap san pi sp = Ok (um, st) ->
   In t (sp_steps sp) -> valid_row sp um (s_name t) i ->
   exists r, rec_of (st_g st) (iname (sp_params sp) um (s_name t) i) = Some r
             /\ r_rlimit r = match s_restart t with [] => 0%nat | _ => sp_rlimit sp end.
-Proof. exact final_C06_rlimit_attach. Qed.
-Print Assumptions C06_rlimit_attach.
+Proof.
+  intros ap san pi sp um st t i Hpi Hh Hs Ht Hv.
+  destruct (records ap san sp um (st_g st) Hh (stage_SF ap san pi sp um st Hpi Hh Hs) t i Ht Hv)
+    as (j & r & _ & _ & R3 & _ & R5 & _).
+  exists r. split; [exact R3 | exact R5].
+Qed.
 
 (** the monitor evaluated by the harness on the implementation's graph holds of
     every staging of the model inside H8, for every iteration order of the sets *)
-Theorem C08_monitor_holds : forall ap san pi sp,
+Lemma final_C08_monitor_holds : forall ap san pi sp,
   perm_oracle pi -> hygb sp = true ->
   C08_ok sp (observe_result (stage ap san pi sp)) = true.
-Proof. exact final_C08_monitor_holds. Qed.
-Print Assumptions C08_monitor_holds.
+Proof. exact monitor_model. Qed.
 
 (** the boolean hygiene decides the propositional one *)
-Theorem C08_hygb_sound : forall sp um, plan sp = Some um -> hygb sp = true -> hygiene sp um.
-Proof. exact final_C08_hygb_sound. Qed.
-Print Assumptions C08_hygb_sound.
+Lemma final_C08_hygb_sound : forall sp um, plan sp = Some um -> hygb sp = true -> hygiene sp um.
+Proof. exact hygb_hygiene. Qed.
 
 (** K2 (known finding, outside H8): labels "a.b","c" and "a","b.c" give the
     same instance name for two rows that differ on used parameters; one
     instance is lost and the monitor is false on the staged graph *)
-Theorem C08_sharing_refuted : exists sp,
+Lemma final_C08_sharing_refuted : exists sp,
   sig_label_join sp = true /\ hygb sp = false /\ C08_ok sp (c08_model sp) = false.
-Proof. exact final_C08_sharing_refuted. Qed.
-Print Assumptions C08_sharing_refuted.
+Proof. exists w_k2. vm_compute. repeat split; reflexivity. Qed.
 
 (** K2b (known finding, outside H8): an instance name equal to another step's name *)
-Theorem C08_total_refuted : exists sp,
+Lemma final_C08_total_refuted : exists sp,
   sig_name_clash sp = true /\ hygb sp = false /\ C08_ok sp (c08_model sp) = false.
-Proof. exact final_C08_total_refuted. Qed.
-Print Assumptions C08_total_refuted.
+Proof. exists w_k2b. vm_compute. repeat split; reflexivity. Qed.
 
 (** non-vacuity: a study inside H8 that stages to nine nodes (three rows, two
     parameters, an ordinary and a funnel dependency, an unparameterised step) *)
-Example C08_nonvacuous :
+Lemma final_C08_nonvacuous :
   hygb w_valid = true
   /\ (exists um st, stage_c pi_id w_valid = Ok (um, st) /\ length (st_g st) = 9%nat)
   /\ C08_ok w_valid (c08_model w_valid) = true.
-Proof. exact final_C08_nonvacuous. Qed.
-Print Assumptions C08_nonvacuous.
+Proof.
+  split; [vm_compute; reflexivity|]. split; [|vm_compute; reflexivity].
+  destruct (stage_c pi_id w_valid) as [[um st]|e] eqn:E.
+  - exists um, st. split; auto.
+    assert (H : match stage_c pi_id w_valid with Ok (_, s) => length (st_g s) | Err _ => 0%nat end = 9%nat)
+      by (vm_compute; reflexivity).
+    rewrite E in H. exact H.
+  - exfalso. assert (H : match stage_c pi_id w_valid with Ok _ => true | Err _ => false end = true)
+      by (vm_compute; reflexivity).
+    rewrite E in H. discriminate.
+Qed.
